@@ -297,3 +297,17 @@ func (ss *serverStream) RecvMsg(m any) error {
 	mc.RaceAcquire(unsafe.Pointer(&st.c2sSync))
 	return codec().Unmarshal(b, m)
 }
+
+// InjectC2S places a raw frame in front of the server's decoder (hostile or corrupted client).
+func (st *Stream) InjectC2S(b []byte) {
+	mc.YieldObjs("net.inject", st.objs())
+	st.c2s = append(st.c2s, b)
+	mc.RaceRelease(unsafe.Pointer(&st.c2sSync))
+}
+
+// InjectS2C places a raw frame in front of the client's decoder.
+func (st *Stream) InjectS2C(b []byte) {
+	mc.YieldObjs("net.inject", st.objs())
+	st.s2c = append(st.s2c, b)
+	mc.RaceRelease(unsafe.Pointer(&st.s2cSync))
+}
